@@ -659,6 +659,80 @@ func (c *Ctx) gxRun() []*gxFamVerdict {
 			}
 		}
 	}
+	// the text entry point: expressions as strings through ParseString (the real tokenizer in front),
+	// each submitted twice in a row to one parser - the second answer must equal the first
+	{
+		fv := &gxFamVerdict{fam: gxFamily{name: "strings-parsed-twice"}}
+		out = append(out, fv)
+		m := newMach(c)
+		m.maxSteps = 3000000
+		ctor := c.MustFunc(pkgParsers, "", "NewExpressionParser")
+		pt := resultType(ctor)
+		parser, o := m.Call(ctor)
+		if o.kind != "ok" {
+			fv.v.undec = "NewExpressionParser: " + o.why
+		} else {
+			var exprs []string
+			for _, f := range fams {
+				switch f.name {
+				case "malformed", "calls-index-grouping", "spacing-comments-case":
+					for _, it := range f.items {
+						exprs = append(exprs, strings.ReplaceAll(strings.ReplaceAll(it, "␠", " "), "~", ""))
+					}
+				}
+			}
+			for _, e := range exprs {
+				if strings.TrimSpace(e) == "" || strings.Contains(e, "Unknown") || strings.Contains(e, "Eof") || strings.Contains(e, "Special") || strings.Contains(e, "Eol") {
+					continue
+				}
+				ls := lexemes(e)
+				if onlyBlank(ls) {
+					continue // the empty input is outside the statement
+				}
+				acc, _ := gxReference(ls)
+				var answers []string
+				for rep := 0; rep < 2; rep++ {
+					m.steps = 0
+					r, o := callM(c, m, pt, "ParseString", parser, e)
+					switch {
+					case o.kind == "panic":
+						answers = append(answers, "panic: "+o.why)
+					case o.kind != "ok":
+						answers = append(answers, "opaque: "+o.why)
+					default:
+						if _, isNil := r.(mNilT); isNil {
+							answers = append(answers, "accepted")
+						} else {
+							answers = append(answers, "rejected "+errorCode(r))
+						}
+					}
+				}
+				fv.v.runs++
+				if acc {
+					fv.v.sentences++
+				}
+				show := "‹" + e + "›"
+				switch {
+				case strings.HasPrefix(answers[0], "opaque"):
+					if fv.v.undec == "" {
+						fv.v.undec = show + ": " + answers[0]
+					}
+				case strings.HasPrefix(answers[0], "panic") || strings.HasPrefix(answers[1], "panic"):
+					if fv.v.langBad == "" {
+						fv.v.langBad = fmt.Sprintf("ParseString(%s) %s / %s", show, answers[0], answers[1])
+					}
+				case acc != (answers[0] == "accepted"):
+					if fv.v.langBad == "" {
+						fv.v.langBad = fmt.Sprintf("ParseString(%s) is %s; the reference grammar says sentence=%v", show, answers[0], acc)
+					}
+				case answers[0] != answers[1]:
+					if fv.v.langBad == "" {
+						fv.v.langBad = fmt.Sprintf("ParseString(%s) is %s the first time and %s when the same text is submitted again to the same parser", show, answers[0], answers[1])
+					}
+				}
+			}
+		}
+	}
 	gxMemo[c.Tier] = out
 	return out
 }
@@ -673,7 +747,7 @@ func onlyBlank(ls []lexeme) bool {
 }
 
 func init() {
-	register(&Rule{ID: "GRAM.parse", Floor: 18,
+	register(&Rule{ID: "GRAM.parse", Floor: 20,
 		Doc: "the parser evaluated abstractly through NewExpressionParser/ParseTokens/ResultTokens over finite families of token strings (all strings up to a bounded length over a representative alphabet, all ordered pairs of binary operators, prefix/postfix/call/index against every binary operator, calls, grouping, malformed forms, single-token mutations, spacing/comments/case): every sentence of the statement's grammar is compiled to the post-order of its syntax tree (#tree#…) and every other string is rejected with a coded error (#language#…)",
 		Run: ruleGramParse})
 }
